@@ -42,12 +42,14 @@ type c13Sample struct {
 	Timeout    string    `json:"matching_timeout"`
 	AfterClose string    `json:"accept_after_close"`
 	Leftover   []string  `json:"goroutines_left"`
+	Listeners  int       `json:"listeners_wrapped_by_the_wrapper"`
+	DoubleClose bool     `json:"consumer_closes_twice"`
 }
 
 func init() {
 	register(&Prop{
 		ID:   "C13",
-		Rule: "each run wraps a simulated listener with the real ListenerWrapper and draws 1..7 client connections of classes {terminal route, fall-through, never-deciding (timeout), matcher error, buffer full, TLS-terminated then fall-through}, stream sizes and segmentations, a consumer that Accepts with tape-chosen gaps and reads each accepted connection late, the connChan capacity (GOMAXPROCS 1/2/4/16), temporary accept errors and a Close instant (after the workload, or in the middle of it). Oracle: exactly-once census, byte-exact replay of prefetched bytes (poisoning pool on), TLS state, closure of consumed/rejected connections, Accept reporting closure, no goroutine left. Non-trivial: >=1 connection handed off with prefetched bytes or Close while connections were in flight; distinct: event-log hashes.",
+		Rule: "each run wraps one or two simulated listeners with one real ListenerWrapper and draws 1..7 client connections of classes {terminal route, fall-through, never-deciding (timeout), matcher error, buffer full, TLS-terminated then fall-through}, stream sizes and segmentations, a consumer per listener that Accepts with tape-chosen gaps, reads each accepted connection late and closes it once or twice, the connChan capacity (GOMAXPROCS 1/2/4/16), temporary accept errors and a Close instant (after the workload, or in the middle of it). Oracle: exactly-once census, byte-exact replay of prefetched bytes (poisoning pool on), TLS state, closure of consumed/rejected connections, delivery by the listener the connection arrived on, Accept reporting closure promptly (not after the handlers still running), no goroutine left. Non-trivial: >=1 connection handed off with prefetched bytes or Close while connections were in flight; distinct: event-log hashes.",
 		Run:  runC13,
 	})
 }
@@ -62,18 +64,23 @@ func runC13(t *testing.T, e *worlds.Env, tier string) (bool, any) {
 		tlsOK  bool
 		sni    string
 		late   time.Duration
+		ln     int // index of the listener it connected to
 	}
 	var conns []*cstate
 	byAddr := map[string]*cstate{}
-	var ln *simnet.Listener
-	var wrapped net.Listener
+	// one wrapper, one or two wrapped listeners (Caddy wraps one per listen address)
+	var lns []*simnet.Listener
+	var wrappeds []net.Listener
 	closedMid := false
 	var closeAt time.Duration
 	closeCalled := false
 	var closeCalledAt time.Duration
 	acceptErrSeen := false
 	var acceptErrAt time.Duration
-	consumerDone := false
+	consumersDone := 0
+	acceptErrs := 0
+	var inAcceptSince []time.Duration // per listener: when its consumer entered the Accept it is blocked in (-1: not in Accept)
+	var closureLag time.Duration      // worst delay between Close (or entering Accept, if later) and Accept's error
 	readersLeft := 0
 	oldProcs := runtime.GOMAXPROCS(0)
 	defer runtime.GOMAXPROCS(oldProcs)
@@ -134,11 +141,21 @@ func runC13(t *testing.T, e *worlds.Env, tier string) (bool, any) {
 		} else {
 			routes = append(layer4.RouteList(twoStep), routes...)
 		}
-		ln = e.N.Listen("ln", simnet.TCPAddr("10.0.0.1", 443))
-		lw := layer4.VerifNewListenerWrapper(routes, timeout, e.Log)
+		nln := 1
+		if tp.Prob(1, 4, "two-listeners") {
+			nln = 2
+		}
+		for i := 0; i < nln; i++ {
+			lns = append(lns, e.N.Listen(fmt.Sprintf("ln%d", i+1), simnet.TCPAddr("10.0.0.1", 443+i)))
+			inAcceptSince = append(inAcceptSince, -1)
+		}
+		sample.Listeners = nln
+		lw := layer4.VerifNewListenerWrapper(e.Ctx, routes, timeout, e.Log)
 		ready := make(chan struct{})
 		e.S.Go("lw", func() {
-			wrapped = lw.WrapListener(ln)
+			for _, ln := range lns {
+				wrappeds = append(wrappeds, lw.WrapListener(ln))
+			}
 			close(ready)
 		})
 		<-ready
@@ -180,59 +197,85 @@ func runC13(t *testing.T, e *worlds.Env, tier string) (bool, any) {
 			plan.App = m.App
 			plan.Chunks = e.MakeChunks(ln2, 15*time.Millisecond)
 			e.Reg.Add(m)
-			cs := &cstate{class: cls, model: m}
-			cs.client = e.StartClient(ln, plan, m)
+			cs := &cstate{class: cls, model: m, ln: tp.Choose(nln, "via-listener")}
+			cs.client = e.StartClient(lns[cs.ln], plan, m)
 			conns = append(conns, cs)
 			byAddr[plan.Addr.String()] = cs
 		}
 		// listener faults
 		if tp.Prob(1, 4, "temp-err") {
-			ln.InjectTempError(1 + tp.Choose(3, "temp-n"))
+			lns[0].InjectTempError(1 + tp.Choose(3, "temp-n"))
 		}
 		// consumer
 		gap := time.Duration(tp.Pick("accept-gap-ms", 0, 0, 50, 700)) * time.Millisecond
 		sample.AcceptGap = gap.String()
-		e.S.Go("cons", func() {
-			k := 0
-			for {
-				if gap > 0 {
-					time.Sleep(gap)
-				}
-				c, err := wrapped.Accept()
-				if err != nil {
+		doubleClose := tp.Prob(1, 4, "double-close")
+		sample.DoubleClose = doubleClose
+		for li := range wrappeds {
+			li := li
+			e.S.Go(fmt.Sprintf("cons%d", li+1), func() {
+				k := 0
+				for {
+					if gap > 0 {
+						time.Sleep(gap)
+					}
 					lk()
-					acceptErrSeen, acceptErrAt = true, e.S.Elapsed()
-					consumerDone = true
+					inAcceptSince[li] = e.S.Elapsed()
 					ulk()
-					return
-				}
-				k++
-				cs := byAddr[c.RemoteAddr().String()]
-				if cs == nil {
-					e.S.Fail("C13/unknown-conn", sig, "Accept returned a connection from %v that no client opened", c.RemoteAddr())
-					_ = c.Close()
-					continue
-				}
-				lk()
-				cs.accepts++
-				readersLeft++
-				ulk()
-				late := time.Duration(e.S.Choose(4, "read-late")) * 150 * time.Millisecond
-				cs.late = late
-				if st, ok := c.(interface{ ConnectionState() tls.ConnectionState }); ok {
-					cs.tlsOK = true
-					cs.sni = st.ConnectionState().ServerName
-				}
-				e.S.Go(fmt.Sprintf("cons.r%d", k), func() {
-					rec := &worlds.Recorder{E: e, Name: "accepted", Tag: "C13", Sig: sig, Late: late, MaxBuf: 2048}
-					rec.Record(c, cs.model, true)
-					_ = c.Close()
+					c, err := wrappeds[li].Accept()
+					if err != nil {
+						lk()
+						now := e.S.Elapsed()
+						acceptErrs++
+						acceptErrSeen, acceptErrAt = acceptErrs == len(wrappeds), now
+						consumersDone++
+						from := inAcceptSince[li]
+						if closeCalled && closeCalledAt > from {
+							from = closeCalledAt
+						}
+						if closeCalled && now-from > closureLag {
+							closureLag = now - from
+						}
+						ulk()
+						return
+					}
 					lk()
-					readersLeft--
+					inAcceptSince[li] = -1
 					ulk()
-				})
-			}
-		})
+					k++
+					cs := byAddr[c.RemoteAddr().String()]
+					if cs == nil {
+						e.S.Fail("C13/unknown-conn", sig, "Accept returned a connection from %v that no client opened", c.RemoteAddr())
+						_ = c.Close()
+						continue
+					}
+					if cs.ln != li {
+						e.S.Fail("C13/wrong-listener", sig, "conn %d arrived on listener %d but was returned by Accept of listener %d (both wrapped by the same wrapper)", cs.model.ID, cs.ln+1, li+1)
+					}
+					lk()
+					cs.accepts++
+					readersLeft++
+					ulk()
+					late := time.Duration(e.S.Choose(4, "read-late")) * 150 * time.Millisecond
+					cs.late = late
+					if st, ok := c.(interface{ ConnectionState() tls.ConnectionState }); ok {
+						cs.tlsOK = true
+						cs.sni = st.ConnectionState().ServerName
+					}
+					e.S.Go(fmt.Sprintf("cons%d.r%d", li+1, k), func() {
+						rec := &worlds.Recorder{E: e, Name: "accepted", Tag: "C13", Sig: sig, Late: late, MaxBuf: 2048}
+						rec.Record(c, cs.model, true)
+						_ = c.Close()
+						if doubleClose {
+							_ = c.Close() // net.Conn allows it; servers routinely do
+						}
+						lk()
+						readersLeft--
+						ulk()
+					})
+				}
+			})
+		}
 		// Close instant
 		closedMid = tp.Prob(1, 3, "close-mid")
 		if closedMid {
@@ -243,7 +286,9 @@ func runC13(t *testing.T, e *worlds.Env, tier string) (bool, any) {
 				lk()
 				closeCalled, closeCalledAt = true, e.S.Elapsed()
 				ulk()
-				_ = wrapped.Close()
+				for _, w := range wrappeds {
+					_ = w.Close()
+				}
 			})
 		} else {
 			sample.CloseAt = "after workload"
@@ -257,7 +302,15 @@ func runC13(t *testing.T, e *worlds.Env, tier string) (bool, any) {
 			lk()
 			r := readersLeft
 			ulk()
-			return r == 0 && e.ChildrenIdle("lw.1")
+			if r != 0 {
+				return false
+			}
+			for i := range wrappeds {
+				if !e.ChildrenIdle(fmt.Sprintf("lw.%d", i+1)) {
+					return false
+				}
+			}
+			return true
 		}
 		closing := false
 		return func() bool {
@@ -269,11 +322,15 @@ func runC13(t *testing.T, e *worlds.Env, tier string) (bool, any) {
 				lk()
 				closeCalled, closeCalledAt = true, e.S.Elapsed()
 				ulk()
-				e.S.Go("closer", func() { _ = wrapped.Close() })
+				e.S.Go("closer", func() {
+					for _, w := range wrappeds {
+						_ = w.Close()
+					}
+				})
 				return false
 			}
 			lk()
-			cd := consumerDone
+			cd := consumersDone == len(wrappeds)
 			ulk()
 			return cd && workloadDone() && len(liveWith(e, "lw")) == 0
 		}
@@ -341,6 +398,9 @@ func runC13(t *testing.T, e *worlds.Env, tier string) (bool, any) {
 					handedWithPrefetch++
 				}
 			}
+		}
+		if closeCalled && closureLag > 20*time.Millisecond {
+			e.S.Fail("C13/accept-after-close", "lw", "Close() was called at %v; an Accept that was blocked then (or entered later) reported closure only %v afterwards (it must not wait for connections still held by handlers)", closeCalledAt, closureLag)
 		}
 		if closeCalled && !acceptErrSeen {
 			e.S.Fail("C13/accept-after-close", "lw", "Close() was called at %v but Accept never reported closure", closeCalledAt)
